@@ -255,11 +255,21 @@ impl<F: Flavour> World<F> {
                     3 => keys(F::g_to_vec(g)),
                     4 => Obs::Num(F::g_to_dot(g).len()),
                     5 => F::g_scc(g).map(|c| Obs::Num(c.len())).unwrap_or(Obs::Unsupported),
-                    6 => Obs::Num(F::g_ser(g, crate::flavour::Wire::Json).map(|b| b.len()).unwrap_or(0)),
+                    6 => match F::g_ser(g, crate::flavour::Wire::Json) {
+                        Ok(b) => match parse_doc_edges(&b) {
+                            Some(e) => Obs::Edges(e),
+                            None => Obs::Text(String::from_utf8_lossy(&b).into_owned()),
+                        },
+                        Err(e) => Obs::Text(format!("error: {e}")),
+                    },
                     7 => F::g_to_dot_attr(g, crate::flavour::DotSpec { g: true, nmask: 0x5555, emask: 0x3333 })
                         .map(|t| Obs::Num(t.len()))
                         .unwrap_or(Obs::Unsupported),
-                    _ => Obs::Num(F::g_iter(g).len()),
+                    _ => {
+                        let mut k: Vec<usize> = F::g_iter(g).iter().map(|(k, _)| *k).collect();
+                        k.sort();
+                        Obs::Keys(k)
+                    }
                 }
             }
         }
@@ -519,4 +529,23 @@ pub fn search_obs<F: Flavour>(root: &F::Node, spec: &SearchSpec) -> Obs {
         result: Box::new(search_out_obs::<F>(out)),
         seen,
     }
+}
+
+/// the edge list `[u, v, value]...` of a serialised graph document `[nodes, edges]` (JSON)
+pub fn parse_doc_edges(bytes: &[u8]) -> Option<Vec<(usize, usize, u64)>> {
+    let v: serde_json::Value = serde_json::from_slice(bytes).ok()?;
+    let top = v.as_array()?;
+    if top.len() != 2 {
+        return None;
+    }
+    top[0].as_array()?;
+    let mut out = Vec::new();
+    for e in top[1].as_array()? {
+        let e = e.as_array()?;
+        if e.len() != 3 {
+            return None;
+        }
+        out.push((e[0].as_u64()? as usize, e[1].as_u64()? as usize, e[2].as_u64()?));
+    }
+    Some(out)
 }
